@@ -183,7 +183,7 @@ func (u *MemUser) Gid() int {
 
 // IsAdmin returns true if the user has administrator (root) privileges.
 func (u *MemUser) IsAdmin() bool {
-	return u.uid == 0 || u.gid == 0
+	return u.uid == 0
 }
 
 // Uid returns the user ID.
